@@ -109,10 +109,10 @@ def convert_snapshot(snapshot: EventSnapshot) -> Snapshot:
                         var_lookup=__convert_lookup(snapshot.var_lookup),
                         ts_nanos=snapshot.ts_nanos, frames=[__convert_frame(f) for f in snapshot.frames],
                         watches=[__convert_watch(w) for w in snapshot.watches],
-                        attributes=[KeyValue(key=k, value=convert_value(__text(v))) for k, v in
+                        attributes=[KeyValue(key=__text(k), value=convert_value(__text(v))) for k, v in
                                     snapshot.attributes.items()],
                         duration_nanos=snapshot.duration_nanos,
-                        resource=[KeyValue(key=k, value=convert_value(__text(v))) for k, v in
+                        resource=[KeyValue(key=__text(k), value=convert_value(__text(v))) for k, v in
                                   snapshot.resource.attributes.items()],
                         log_msg=__text(snapshot.log_msg))
     except Exception:
